@@ -264,6 +264,18 @@ def run_a(case):
     viol.append({"key": "a:%s:%s%s" % (clause, cls.lstrip("Q").replace("Batchnorm", ""), (":" + t) if t else ""),
                  "what": "%s %r: get_operation_count = %d, the layer performs %d" % (cls, g, got, want),
                  "detail": {"case": case, "got": got, "want": want}})
+  if cls in ("QDense", "QConv1D", "QConv2D", "QDepthwiseConv2D"):
+    # the second reporter of the same number: estimate.extract_model_operations on a model holding the layer
+    from qkeras import estimate  # pylint: disable=import-outside-toplevel
+    layer2, shape2 = build_layer(cls, g)
+    m = tf.keras.Model(layer2.input, layer2.output)
+    ops = estimate.extract_model_operations(m)
+    got2 = ops[layer2.name]["number_of_operations"]
+    if int(got2) != want:
+      t = tag_of(cls, g)
+      viol.append({"key": "a:extract_model_operations:%s%s" % (cls.lstrip("Q"), (":" + t) if t else ""),
+                   "what": "%s %r: extract_model_operations reports %d operations, the layer performs %d" % (cls, g, int(got2), want),
+                   "detail": {"case": case, "got": int(got2), "want": want}})
   nontriv = int(any(g.get(k, 1) not in (1, None) for k in ("sh", "sw", "s", "dil")) or g.get("padding") == "same")
   return {"evals": 1, "transitions": 1, "nontrivial": nontriv, "state": "a:%s:%r" % (cls, sorted(g.items())),
           "digest": common.digest(got, want), "violations": viol, "traces": 1,
